@@ -459,6 +459,24 @@ def to_wire(T, v):
     return v
 
 
+def wellformed(T):
+    """a (possibly shrunk) type tree is a legal declaration: distinct enum codes, ordered limits, known kinds"""
+    try:
+        k = T['k']
+        if k == 'enum':
+            return len(T['members']) >= 1 and len(set(T['members'].values())) == len(T['members']) and \
+                all(isinstance(n, str) and n for n in T['members'])
+        if k == 'array':
+            return 0 <= T.get('min', 0) <= T['max'] and wellformed(T['of'])
+        if k == 'tuple':
+            return len(T['of']) >= 1 and all(wellformed(t) for t in T['of'])
+        if k == 'struct':
+            return len(T['members']) >= 1 and all(wellformed(t) for t in T['members'].values()) and set(T.get('optional', [])) <= set(T['members'])
+        return k in ('double', 'int', 'scaled', 'bool', 'string', 'blob')
+    except (KeyError, TypeError):
+        return False
+
+
 def depth(T):
     k = T['k']
     if k == 'array':
